@@ -175,8 +175,9 @@ Definition write_line (h : hctx) (r : vrec) : option (list N) :=
 Definition write_text (h : hctx) (r : vrec) : option (list N) :=
   match write_line h r with Some l => Some (l ++ [10]) | None => None end.
 
-(* both readers: up to the LF, one trailing CR dropped *)
-Definition frame (text : list N) : list N := first_line text.
+(* both readers: up to the LF, one trailing CR dropped; a last line without LF is taken as it is
+   (then fewer than eight columns are not an error of read_record: not modelled) *)
+Definition frame (text : list N) : list N := if mem 10 text then first_line text else text.
 
 (* ---------------------------------------------------------------------------------------- *)
 (* shared field readers *)
@@ -253,12 +254,13 @@ Definition e_keys (s : list N) : option (list (list N)) :=
          else let ks := split_all 58 s in if has_dup ks then None else Some ks
   end.
 
-Fixpoint e_rows (h : hctx) (ds : list fdef) (ps : list (list N)) (i n : nat)
+(* one next_field per header sample: a column that is not there is "" *)
+Fixpoint e_rows (ds : list fdef) (cols : list (list N)) (n : nat)
   : option (list (list (option value))) :=
   match n with
   | O => Some []
   | S n' =>
-      match parse_sample_eager prs_float ds (fld ps i), e_rows h ds ps (S i) n' with
+      match parse_sample_eager prs_float ds (hd [] cols), e_rows ds (tl cols) n' with
       | Some row, Some rest => Some (row :: rest)
       | _, _ => None
       end
@@ -274,7 +276,7 @@ Definition e_samples (h : hctx) (ps : list (list N)) : option (list (list N) * l
   | n =>
       match e_keys (fld ps 8) with
       | Some ks =>
-          match e_rows h (map (fdef_of h) ks) ps 9 n with
+          match e_rows (map (fdef_of h) ks) (skipn 9 ps) n with
           | Some rows => Some (ks, rows)
           | None => None
           end
@@ -354,17 +356,20 @@ Definition l_keys (s : list N) : list (list N) :=
 Definition l_samples (h : hctx) (cols : list (list N))
   : option (list (list N) * list (list (option value))) :=
   match cols with
-  | [] | [[]] => Some ([], [])
-  | [_] => Some ([], [])
+  | [] => Some ([], [])
   | f :: rest =>
-      if bytes_eqb f dot then Some ([], [])
-      else
-        let ks := l_keys f in
-        let ds := map (fdef_of h) ks in
-        match sequence (map (parse_sample_lazy prs_float ds) (drop_last_empty rest)) with
-        | Some rows => Some (ks, rows)
-        | None => None
-        end
+      match rest with
+      | [] => Some ([], [])
+      | _ =>
+        if bytes_eqb f dot then Some ([], [])
+        else
+          let ks := l_keys f in
+          let ds := map (fdef_of h) ks in
+          match sequence (map (parse_sample_lazy prs_float ds) (drop_last_empty rest)) with
+          | Some rows => Some (ks, rows)
+          | None => None
+          end
+      end
   end.
 
 Definition read_lazy (h : hctx) (line : list N) : option vrec :=
@@ -381,6 +386,49 @@ Definition read_lazy (h : hctx) (line : list N) : option vrec :=
             r_alts := l_list 44 (fld ps 4); r_qual := qual; r_filters := l_list 59 (fld ps 6);
             r_info := info; r_keys := ks; r_samples := rows |}
   end end end end.
+
+(* KNOWN DEFECT (lazy-record-cr-before-empty-last-column-panic).  read_record strips the CR of a
+   CR LF terminator from the END OF THE WHOLE BUFFER, not from what the last read appended:
+   (a) INFO followed by a TAB and nothing else before the LF: read_line appends nothing, pops the
+   LF it read and then a trailing CR -- the last byte of the INFO column; (b) an empty INFO column
+   ended by the LF: read_field sees EOL and pops a CR that is the last byte of the last
+   non-empty column before it (FILTER, or an earlier one when the columns in between are empty).
+   A column bound then lies beyond the buffer and the accessors of that column and of every later
+   one panic (slice index out of range); the accessors of earlier columns still answer, so the
+   forced view (variant_start, quality_score, info, ... in that order) can still end in an Err. *)
+Fixpoint last_ne (fs : list (list N)) (i acc : nat) : nat :=
+  match fs with
+  | [] => acc
+  | f :: t => last_ne t (S i) (match f with [] => acc | _ => i end)
+  end.
+Definition ends_cr (s : list N) : bool := match rev s with 13 :: _ => true | _ => false end.
+
+(* the line has 8 or 9 columns, the last one is empty, and the bytes before it end with CR *)
+Definition lazy_panics (line : list N) : bool :=
+  let ps := split_all 9 line in
+  match skipn 7 ps with
+  | [[]] => ends_cr (concat (firstn 7 ps))     (* (b): eight columns, INFO empty *)
+  | [_; []] => ends_cr (concat (firstn 8 ps))  (* (a): INFO, TAB, end of line *)
+  | _ => false
+  end.
+
+(* on the text with its terminator: the class is decided on the line before the CR of a CRLF is
+   dropped (with CRLF the CR that read_line pops is its own, and nothing goes wrong) *)
+Definition read_lazy_p (h : hctx) (text : list N) : res vrec :=
+  let raw := take_until 10 text in
+  if lazy_panics raw then
+    let ps := split_all 9 raw in
+    (* the column that lost its last byte: INFO in class (a), the last non-empty one in (b) *)
+    let j := match skipn 7 ps with [[]] => last_ne (firstn 7 ps) 0 0 | _ => last_ne (firstn 8 ps) 0 0 end in
+    let pos_ok := match parse_position (fld ps 1) with Some _ => true | None => false end in
+    let qual_ok := if bytes_eqb (fld ps 5) dot then true
+                   else match prs_float (fld ps 5) with Some _ => true | None => false end in
+    if (j <=? 1)%nat then Panic
+    else if negb pos_ok then Err InvalidData
+    else if (j <=? 5)%nat then Panic
+    else if negb qual_ok then Err InvalidData
+    else Panic
+  else match read_lazy h (frame text) with Some r => Ok r | None => Err InvalidData end.
 
 (* ---------------------------------------------------------------------------------------- *)
 (* the record span (variant/record.rs::variant_end / variant_span) from the record's accessors:
